@@ -220,6 +220,8 @@ def correspondence(ck, binpath, n, label="corr"):
         for i, j, r in o["checks"]:
             ck.count_case(("corr", o["defs"], o["specs"][i], o["specs"][j], json.dumps(o["cfg"])), nontrivial=(i != j or len(o["specs"][i]) > 9))
     stats["families"] = fams
+    # coq_failing counted one trace per world; count the individual observations that were compared as well
+    ck.cov["traces_validated_against_impl"] += stats["checks"] + stats["unions"] + stats["subs"] + stats["eff"]
     ck.cov["distribution"]["correspondence"] = stats
     if kept:
         o = kept[min(len(kept) - 1, 3)]
